@@ -11,7 +11,11 @@
 //
 //	case <id> dag=<seed>:<maxblocks> q=<root>:<sel>,<root>:<sel>[,<root>:<sel>] start=<step>,<step>[,<step>]
 //	          sched=<seed> w=<dq>,<dr>,<ww> wr=<r0>,<r1>[,<r2>] ws=<s0>,<s1>[,<s2>] qg=<bits> sg=<bits>
-//	          wg=<block|-> dedup=none|same|distinct [peers=<bits>]   (bit i = 1: request i is issued by a SECOND requestor peer)
+//	          wg=<block|-> dedup=none|same|distinct [keys=<k|->,…] [ign=<c+c|->,…] [skip=<n>,…] [cancel=<k>,…] [peers=<bits>]
+//	          (keys: dedup-by-key per request, overrides dedup=; ign: do-not-send-cids per request; skip: user
+//	          do-not-send-first-blocks per request; cancel k>0: the requestor fails request i from its block hook
+//	          at block k; start value 9999 = when every earlier request has ended and the network is drained)
+//	            (bit i = 1: request i is issued by a SECOND requestor peer)
 //	remote <cids|->      responder's store
 //	put <cid> …          requestor's store
 //	run                  -> one summary line
@@ -23,6 +27,10 @@ package concur
 
 import (
 	"bufio"
+	"bytes"
+	"io"
+	"os/exec"
+	"errors"
 	"fmt"
 	"math/rand"
 	"os"
@@ -33,7 +41,10 @@ import (
 	"time"
 
 	"github.com/ipfs/go-graphsync"
+	"github.com/ipfs/go-cid"
+	"github.com/ipfs/go-graphsync/cidset"
 	"github.com/ipfs/go-graphsync/dedupkey"
+	"github.com/ipfs/go-graphsync/donotsendfirstblocks"
 
 	"verifharness/reg"
 	tn "verifharness/twonode"
@@ -59,6 +70,10 @@ type Params struct {
 	QG, SG []bool
 	WG     int // block whose first store write parks (-1 none)
 	Dedup  string
+	Keys   []string // dedup-by-key value per request ("" = none); nil = derive from Dedup
+	Ign    [][]int  // do-not-send-cids per request
+	Skip   []int    // user do-not-send-first-blocks per request
+	Cancel []int    // >0: the requestor's block hook terminates request i with an error at this block
 	Peers  []int // issuing requestor of each request: 0 = node A, 1 = node B (a second requestor peer)
 }
 
@@ -172,6 +187,49 @@ func parseHeader(h string) (Params, bool) {
 		}
 		p.Sched = x
 	}
+	p.Ign = make([][]int, n)
+	p.Skip = make([]int, n)
+	p.Cancel = make([]int, n)
+	if v, has := kvs["keys"]; has {
+		f := strings.Split(v, ",")
+		if len(f) != n {
+			return p, false
+		}
+		p.Keys = make([]string, n)
+		for i, x := range f {
+			if x != "-" {
+				p.Keys[i] = x
+			}
+		}
+	}
+	if v, has := kvs["ign"]; has {
+		f := strings.Split(v, ",")
+		if len(f) != n {
+			return p, false
+		}
+		for i, x := range f {
+			if x == "-" {
+				continue
+			}
+			for _, t := range strings.Split(x, "+") {
+				c, err := strconv.Atoi(t)
+				if err != nil || c < 0 {
+					return p, false
+				}
+				p.Ign[i] = append(p.Ign[i], c)
+			}
+		}
+	}
+	if _, has := kvs["skip"]; has {
+		if p.Skip, ok = ints("skip", 0); !ok {
+			return p, false
+		}
+	}
+	if _, has := kvs["cancel"]; has {
+		if p.Cancel, ok = ints("cancel", 0); !ok {
+			return p, false
+		}
+	}
 	p.Peers = make([]int, n)
 	if v, has := kvs["peers"]; has {
 		b, ok := bits(v, n)
@@ -202,6 +260,7 @@ type runOut struct {
 	hang  string
 	sim   *tn.Sim
 	steps int
+	startStore map[int][]int // requestor store (of the issuing node) at the moment request i was started
 }
 
 func dedupExt(key string) graphsync.ExtensionData {
@@ -214,28 +273,72 @@ func dedupExt(key string) graphsync.ExtensionData {
 
 // run the requests `which` (indices into qs) concurrently under the case's schedule (solo = free run)
 func runSet(w *tn.World, qs []*tn.Query, which []int, loc, rem []int, p Params, solo bool) *runOut {
+	return runSetAt(w, qs, which, loc, loc, rem, p, solo)
+}
+
+// runSetAt: locA / locB = initial stores of the two requestor nodes
+func runSetAt(w *tn.World, qs []*tn.Query, which []int, locA, locB, rem []int, p Params, solo bool) *runOut {
+	loc := locA
 	withB := false
 	for _, qi := range which {
 		if p.Peers[qi] == 1 {
 			withB = true
 		}
 	}
-	s := tn.NewSimB(w, loc, rem, loc, withB, len(which))
+	s := tn.NewSimB(w, loc, rem, locB, withB, len(which))
 	ro := &runOut{sim: s}
 	var rr []*tn.ReqRun
 	for k, qi := range which {
 		var exts []graphsync.ExtensionData
-		switch p.Dedup {
-		case "same":
-			exts = append(exts, dedupExt("shared"))
-		case "distinct":
-			exts = append(exts, dedupExt(fmt.Sprintf("key-%d", qi)))
+		key := ""
+		if p.Keys != nil {
+			key = p.Keys[qi]
+		} else {
+			switch p.Dedup {
+			case "same":
+				key = "shared"
+			case "distinct":
+				key = fmt.Sprintf("key-%d", qi)
+			}
+		}
+		if key != "" {
+			exts = append(exts, dedupExt(key))
+		}
+		if len(p.Ign[qi]) > 0 {
+			set := cid.NewSet()
+			for _, c := range p.Ign[qi] {
+				if c < len(w.D.Cids) {
+					set.Add(w.D.Cids[c])
+				}
+			}
+			exts = append(exts, graphsync.ExtensionData{Name: graphsync.ExtensionDoNotSendCIDs, Data: cidset.EncodeCidSet(set)})
+		}
+		if p.Skip[qi] > 0 {
+			exts = append(exts, graphsync.ExtensionData{Name: graphsync.ExtensionsDoNotSendFirstBlocks, Data: donotsendfirstblocks.EncodeDoNotSendFirstBlocks(int64(p.Skip[qi]))})
 		}
 		node := tn.NodeA
 		if p.Peers[qi] == 1 {
 			node = tn.NodeB
 		}
 		r := s.AddRequestAt(node, qs[qi], exts...)
+		if len(p.Ign[qi]) > 0 || p.Skip[qi] > 0 {
+			// the request vouches for blocks (do-not-send-cids / do-not-send-first-blocks): it holds them in
+			// a store of its own (persistence option; its dedup key is then the option's name)
+			var held []int
+			held = append(held, p.Ign[qi]...)
+			succ := 0
+			for _, l := range qs[qi].LT {
+				if succ >= p.Skip[qi] {
+					break
+				}
+				held = append(held, l.Block)
+				succ++
+			}
+			name := fmt.Sprintf("alt%d", qi)
+			if err := s.AddAltStore(node, name, held); err == nil {
+				r.PO = name
+			}
+		}
 		rr = append(rr, r)
 		if !solo {
 			s.ReqHookGate[k].Enable(p.QG[qi])
@@ -247,11 +350,34 @@ func runSet(w *tn.World, qs []*tn.Query, which []int, loc, rem []int, p Params, 
 		g.Enable(true)
 		s.WriteGate[p.WG] = g
 	}
+	s.OnReqBlock = func(r *tn.ReqRun, nth int, bd graphsync.BlockData, ha graphsync.IncomingBlockHookActions) {
+		if k := p.Cancel[which[r.Idx]]; k > 0 && nth == k {
+			ha.TerminateWithError(errors.New("stopped by the requestor's block hook"))
+		}
+	}
+	ro.startStore = map[int][]int{}
 	rng := rand.New(rand.NewSource(p.Sched))
 	for step := 0; ; step++ {
 		for k, r := range rr {
-			if !r.Started && (solo || step >= p.Start[which[k]]) {
+			if r.Started {
+				continue
+			}
+			ok := solo || step >= p.Start[which[k]]
+			if !solo && p.Start[which[k]] == 9999 {
+				// after every earlier request has ended and nothing is in flight any more
+				ok = s.InFlight(0)+s.InFlight(1)+s.InFlight(2)+s.InFlight(3) == 0
+				s.Locked(func() {
+					for j := 0; j < k; j++ {
+						if !rr[j].Started || !rr[j].Closed() {
+							ok = false
+						}
+					}
+				})
+			}
+			if ok {
+				ro.startStore[which[k]] = s.StoreKeys(r.Node)
 				s.Start(r)
+				s.Quiesce()
 			}
 		}
 		s.Quiesce()
@@ -383,6 +509,38 @@ func sharedRace(s *tn.Sim, nodeOf func(req int) int) string {
 			}
 		}
 	}
+	// the moment each request ended on the responder: its terminal status handed to the network, or
+	// the last thing its executor did after the requestor's cancel arrived
+	endSeq := map[int]int{}
+	for _, e := range log {
+		if e.Pkt == nil {
+			continue
+		}
+		if e.Kind == tn.EvSend && e.Side == tn.NodeResp {
+			for _, r := range e.Pkt.Resps {
+				if r.Status.IsTerminal() {
+					if _, ok := endSeq[r.Req]; !ok {
+						endSeq[r.Req] = e.Seq
+					}
+				}
+			}
+		}
+		if e.Kind == tn.EvDeliver && (e.Pkt.Dir == 0 || e.Pkt.Dir == 2) {
+			for _, q := range e.Pkt.Reqs {
+				if q.Type == graphsync.RequestTypeCancel {
+					if _, ok := endSeq[q.Req]; !ok {
+						end := e.Seq
+						for _, f := range log {
+							if f.Seq > e.Seq && f.Side == tn.NodeResp && f.Req == q.Req && (f.Kind == tn.EvRead || f.Kind == tn.EvRespHook) {
+								end = f.Seq
+							}
+						}
+						endSeq[q.Req] = end
+					}
+				}
+			}
+		}
+	}
 	for _, e := range log {
 		if e.Kind != tn.EvRead || e.Side == tn.NodeResp || e.OK {
 			continue
@@ -396,7 +554,11 @@ func sharedRace(s *tn.Sim, nodeOf func(req int) int) string {
 				continue
 			}
 			for _, a := range wire[x] {
-				if a.req != b.req && a.seq < b.seq && nodeOf(a.req) == e.Side && nodeOf(b.req) == e.Side {
+				live := true
+				if es, ok := endSeq[a.req]; ok && es < b.seq {
+					live = false // A had already ended on the responder: withholding is not the known de-duplication
+				}
+				if a.req != b.req && a.seq < b.seq && live && nodeOf(a.req) == e.Side && nodeOf(b.req) == e.Side {
 					return fmt.Sprintf("block %d went on the wire under r%d (seq %d), r%d was then told present-without-bytes (seq %d) and a load of it hit the local store (seq %d) before r%d's copy was stored", x, a.req, a.seq, b.req, b.seq, e.Seq, a.req)
 				}
 			}
@@ -460,18 +622,154 @@ func union(a, b []int) []int {
 
 // ---------------------------------------------------------------- run
 
+// Run: the cases are executed in a supervised child process (`gs-concur child`), one at a time: a panic
+// that escapes the real code's recover frames (and kills the process) becomes an oracle failure of the
+// case that caused it instead of taking the whole stream down.
 func Run(cases []reg.Case, out *reg.Out) {
+	var ch *child
+	defer func() {
+		if ch != nil {
+			ch.stop()
+		}
+	}()
+	for _, c := range cases {
+		if ch == nil {
+			var err error
+			ch, err = startChild()
+			if err != nil {
+				// no supervision possible: run in-process
+				runtime.GOMAXPROCS(1)
+				tn.QuietLogs()
+				out.BeginCase(c)
+				runCase(c, out)
+				continue
+			}
+		}
+		ok, sawHeader, sawFail := ch.runOne(c, out)
+		if !ok {
+			if !sawHeader {
+				fmt.Fprintln(out.W, c.Header)
+			}
+			if !sawFail {
+				fmt.Fprintf(out.W, "#oracle case=%s FAIL class=crash the process running the two nodes died while executing this case: %s\n", c.ID, ch.lastStderr())
+			}
+			ch.stop()
+			ch = nil
+		}
+		out.W.Flush()
+	}
+}
+
+type child struct {
+	cmd    *exec.Cmd
+	in     io.WriteCloser
+	out    *bufio.Reader
+	errBuf *bytes.Buffer
+}
+
+func startChild() (*child, error) {
+	cmd := exec.Command(os.Args[0], "child")
+	in, err := cmd.StdinPipe()
+	if err != nil {
+		return nil, err
+	}
+	op, err := cmd.StdoutPipe()
+	if err != nil {
+		return nil, err
+	}
+	eb := &bytes.Buffer{}
+	cmd.Stderr = eb
+	if err := cmd.Start(); err != nil {
+		return nil, err
+	}
+	return &child{cmd: cmd, in: in, out: bufio.NewReaderSize(op, 1<<20), errBuf: eb}, nil
+}
+
+func (c *child) stop() {
+	c.in.Close()
+	_ = c.cmd.Process.Kill()
+	_ = c.cmd.Wait()
+}
+
+func (c *child) lastStderr() string {
+	t := c.errBuf.String()
+	for _, l := range strings.Split(t, "\n") {
+		if strings.HasPrefix(l, "panic:") || strings.HasPrefix(l, "fatal error:") {
+			return strings.TrimSpace(l)
+		}
+	}
+	if len(t) > 200 {
+		t = t[len(t)-200:]
+	}
+	return strings.ReplaceAll(strings.TrimSpace(t), "\n", " | ")
+}
+
+// runOne feeds one case to the child and relays its output; ok=false if the child died
+func (c *child) runOne(cs reg.Case, out *reg.Out) (ok, sawHeader, sawFail bool) {
+	var sb strings.Builder
+	sb.WriteString(cs.Header + "\n")
+	for _, op := range cs.Ops {
+		sb.WriteString(strings.Join(op, " ") + "\n")
+	}
+	sb.WriteString("#end\n")
+	if _, err := io.WriteString(c.in, sb.String()); err != nil {
+		return false, false, false
+	}
+	for {
+		line, err := c.out.ReadString('\n')
+		if strings.HasSuffix(line, "\n") {
+			l := strings.TrimRight(line, "\n")
+			if l == "#done" {
+				return true, sawHeader, sawFail
+			}
+			if strings.HasPrefix(l, "case ") {
+				sawHeader = true
+			}
+			if strings.HasPrefix(l, "#oracle ") {
+				sawFail = true
+			}
+			if l != "" {
+				fmt.Fprintln(out.W, l)
+			}
+		}
+		if err != nil {
+			return false, sawHeader, sawFail
+		}
+	}
+}
+
+// Child is the supervised worker: cases arrive on stdin, each terminated by a line `#end`; the output
+// of a case (its lines, oracle verdicts and coverage counters) is followed by a line `#done`.
+func Child() {
 	runtime.GOMAXPROCS(1)
 	tn.QuietLogs()
-	for _, c := range cases {
-		out.BeginCase(c)
-		wd := time.AfterFunc(180*time.Second, func() {
-			fmt.Fprintf(os.Stdout, "\n#oracle case=%s FAIL class=hang watchdog: the case did not finish within 180 s\n", c.ID)
-			os.Exit(3)
-		})
-		runCase(c, out)
-		wd.Stop()
-		out.W.Flush()
+	in := bufio.NewReaderSize(os.Stdin, 1<<20)
+	w := bufio.NewWriterSize(os.Stdout, 1<<20)
+	var buf strings.Builder
+	for {
+		line, err := in.ReadString('\n')
+		if strings.TrimSpace(line) == "#end" {
+			cases, _ := reg.ReadCases(strings.NewReader(buf.String()))
+			buf.Reset()
+			for _, c := range cases {
+				o := reg.NewOut(w)
+				o.BeginCase(c)
+				wd := time.AfterFunc(180*time.Second, func() {
+					fmt.Fprintf(os.Stdout, "\n#oracle case=%s FAIL class=hang watchdog: the case did not finish within 180 s\n", c.ID)
+					os.Exit(3)
+				})
+				runCase(c, o)
+				wd.Stop()
+				o.Finish()
+			}
+			fmt.Fprintln(w, "#done")
+			w.Flush()
+		} else {
+			buf.WriteString(line)
+		}
+		if err != nil {
+			return
+		}
 	}
 }
 
@@ -566,8 +864,30 @@ func judgeCase(out *reg.Out, w *tn.World, qs []*tn.Query, loc, rem []int, p Para
 	sort.Ints(soloStore)
 	soloStoreB := append([]int{}, soloStore...)
 	anyB := false
+	anyCancel, anyAfter := false, false
 	for i := 0; i < n; i++ {
-		so := runSet(w, qs, []int{i}, loc, rem, p, true)
+		if len(p.Ign[i]) > 0 || p.Skip[i] > 0 {
+			anyAfter = true // own store: the default store's content is not comparable
+		}
+	}
+	for i := 0; i < n; i++ {
+		la, lb := loc, loc
+		if p.Start[i] == 9999 {
+			anyAfter = true
+			if st, ok := conc.startStore[i]; ok {
+				// the request was issued after the earlier ones had ended: alone, it starts from the
+				// store they left behind
+				if p.Peers[i] == 1 {
+					lb = st
+				} else {
+					la = st
+				}
+			}
+		}
+		if p.Cancel[i] > 0 {
+			anyCancel = true
+		}
+		so := runSetAt(w, qs, []int{i}, la, lb, rem, p, true)
 		solo = append(solo, so)
 		if p.Peers[i] == 1 {
 			anyB = true
@@ -626,6 +946,9 @@ func judgeCase(out *reg.Out, w *tn.World, qs []*tn.Query, loc, rem []int, p Para
 		out.Line("%s store=%s solo-store=%s steps=%d", strings.Join(parts, " "), tn.FmtInts(conc.store), tn.FmtInts(soloStore), conc.steps)
 	}
 	for i, so := range solo {
+		if p.Cancel[i] > 0 {
+			continue
+		}
 		if so.hang != "" {
 			out.Fail(cls("baseline-hang"), "request %d alone: %s", i, so.hang)
 			summary()
@@ -633,6 +956,9 @@ func judgeCase(out *reg.Out, w *tn.World, qs []*tn.Query, loc, rem []int, p Para
 		}
 	}
 	for i, so := range solo {
+		if p.Cancel[i] > 0 {
+			continue
+		}
 		if len(so.res[0].Hard) > 0 && qs[i].RefTrav(locS, remS)[0].Avail {
 			out.Fail(cls("baseline-rejected"), "request %d alone failed verification: %s", i, strings.Join(so.res[0].Hard, " "))
 			summary()
@@ -660,6 +986,9 @@ func judgeCase(out *reg.Out, w *tn.World, qs []*tn.Query, loc, rem []int, p Para
 	}
 	out.Cov("verdict.given")
 	for i := 0; i < n; i++ {
+		if p.Cancel[i] > 0 {
+			continue // failed on purpose by the requestor's hook: nothing to compare
+		}
 		a, b := solo[i].res[0], conc.res[i]
 		if !qs[i].RefTrav(locS, remS)[0].Avail {
 			a.Missing, b.Missing, a.Hard, b.Hard = nil, nil, nil, nil
@@ -669,6 +998,10 @@ func judgeCase(out *reg.Out, w *tn.World, qs []*tn.Query, loc, rem []int, p Para
 			summary()
 			return
 		}
+	}
+	if anyCancel || anyAfter {
+		summary()
+		return
 	}
 	if tn.FmtInts(conc.store) != tn.FmtInts(soloStore) {
 		out.Fail(cls("store-differs"), "requestor store after the concurrent run [%s], union of the solo runs' stores [%s]", tn.FmtInts(conc.store), tn.FmtInts(soloStore))
@@ -712,8 +1045,49 @@ func emit(wr *bufio.Writer, id string, p Params, loc, rem []int) {
 	for i := range pb {
 		pb[i] = i < len(p.Peers) && p.Peers[i] == 1
 	}
-	fmt.Fprintf(wr, "case %s dag=%d:%d q=%s start=%s sched=%d w=%d,%d,%d wr=%s ws=%s qg=%s sg=%s wg=%s dedup=%s peers=%s\n",
-		id, p.Seed, p.MB, strings.Join(qs, ","), tn.FmtInts(p.Start), p.Sched, p.W[0], p.W[1], p.W[2], tn.FmtInts(p.WR), tn.FmtInts(p.WS), fmtBits(p.QG), fmtBits(p.SG), wg, p.Dedup, fmtBits(pb))
+	extra := ""
+	if p.Keys != nil {
+		ks := make([]string, len(p.Keys))
+		for i, k := range p.Keys {
+			ks[i] = k
+			if k == "" {
+				ks[i] = "-"
+			}
+		}
+		extra += " keys=" + strings.Join(ks, ",")
+	}
+	anyIgn := false
+	igs := make([]string, len(p.Q))
+	for i := range igs {
+		igs[i] = "-"
+		if i < len(p.Ign) && len(p.Ign[i]) > 0 {
+			anyIgn = true
+			ss := make([]string, len(p.Ign[i]))
+			for j, c := range p.Ign[i] {
+				ss[j] = strconv.Itoa(c)
+			}
+			igs[i] = strings.Join(ss, "+")
+		}
+	}
+	if anyIgn {
+		extra += " ign=" + strings.Join(igs, ",")
+	}
+	nz := func(l []int) bool {
+		for _, x := range l {
+			if x != 0 {
+				return true
+			}
+		}
+		return false
+	}
+	if nz(p.Skip) {
+		extra += " skip=" + tn.FmtInts(p.Skip)
+	}
+	if nz(p.Cancel) {
+		extra += " cancel=" + tn.FmtInts(p.Cancel)
+	}
+	fmt.Fprintf(wr, "case %s dag=%d:%d q=%s start=%s sched=%d w=%d,%d,%d wr=%s ws=%s qg=%s sg=%s wg=%s dedup=%s peers=%s%s\n",
+		id, p.Seed, p.MB, strings.Join(qs, ","), tn.FmtInts(p.Start), p.Sched, p.W[0], p.W[1], p.W[2], tn.FmtInts(p.WR), tn.FmtInts(p.WS), fmtBits(p.QG), fmtBits(p.SG), wg, p.Dedup, fmtBits(pb), extra)
 	fmt.Fprintln(wr, "remote", tn.FmtInts(rem))
 	if len(loc) > 0 {
 		ss := make([]string, len(loc))
@@ -863,6 +1237,73 @@ func genCase(r *rand.Rand, i int) (Params, []int, []int) {
 		p.Peers = make([]int, n)
 		if i%7 == 6 { // one of the requests comes from a second requestor peer
 			p.Peers[1+r.Intn(n-1)] = 1
+		}
+		p.Ign = make([][]int, n)
+		p.Skip = make([]int, n)
+		p.Cancel = make([]int, n)
+		switch i % 11 {
+		case 8:
+			// request 0 carries a dedup key AND a do-not-send-cids list (blocks it keeps elsewhere: they are
+			// not in the store the other requests use); the others use the default scope or other keys.
+			// Request 0 is held on the responder while the others run (or runs first, every other time).
+			p.Keys = make([]string, n)
+			p.Keys[0] = "5"
+			for k := 1; k < n; k++ {
+				if r.Intn(2) == 0 {
+					p.Keys[k] = strconv.Itoa(6 + k)
+				}
+			}
+			seen := map[int]bool{}
+			for _, l := range qs[0].LT[1:] {
+				if !seen[l.Block] && (cnt[l.Block] > 1 || r.Intn(3) == 0) && r.Intn(4) != 0 {
+					seen[l.Block] = true
+					p.Ign[0] = append(p.Ign[0], l.Block)
+				}
+			}
+			sort.Ints(p.Ign[0])
+			loc = nil
+			for k := range p.SG {
+				p.SG[k], p.QG[k] = true, true
+			}
+			if r.Intn(2) == 0 {
+				p.WS[0] = 0
+			}
+			p.Peers = make([]int, n)
+		case 9:
+			// same dedup key; the later requests have been received but are held before their first block
+			// until the first one has completed
+			p.Keys = make([]string, n)
+			for k := range p.Keys {
+				p.Keys[k] = "5"
+				p.SG[k], p.QG[k] = true, r.Intn(2) == 0
+				p.WS[k] = 0
+				p.Start[k] = 0
+			}
+			p.WS[0] = 1
+			p.Peers = make([]int, n)
+		case 10:
+			// same dedup key; request 0 is failed by the requestor after its first block(s) while the responder
+			// has already sent all of it; the others are issued afterwards
+			p.Keys = make([]string, n)
+			for k := range p.Keys {
+				p.Keys[k] = "5"
+				p.Start[k] = 9999
+				p.SG[k], p.QG[k] = false, r.Intn(2) == 0
+			}
+			p.Start[0] = 0
+			p.QG[0], p.WR[0] = true, 0
+			p.Cancel[0] = 1 + r.Intn(2)
+			loc = nil
+			p.WG = -1
+			p.Peers = make([]int, n)
+		}
+		if r.Intn(9) == 0 {
+			// an arbitrary mix of the extensions
+			k := r.Intn(n)
+			p.Skip[k] = r.Intn(4)
+			if r.Intn(2) == 0 && len(shared) > 0 {
+				p.Ign[(k+1)%n] = []int{shared[r.Intn(len(shared))]}
+			}
 		}
 		return p, loc, rem
 	}
